@@ -123,7 +123,8 @@ func (fr *frame) constTV(c *ssa.Const, st *State) TV {
 		s.note("%s: float constant %s abstracted", FuncKey(fr.fn), c.Value.String())
 		return s.freshValue(st, "fconst", t)
 	case "Str":
-		return TV{T: s.strConst(constant.StringVal(c.Value)), S: so, GT: t}
+		lit := constant.StringVal(c.Value)
+		return TV{T: s.strConst(lit), S: so, GT: t, Lit: &lit}
 	}
 	s.note("%s: constant %s of type %s abstracted", FuncKey(fr.fn), c.String(), t)
 	return s.freshValue(st, "const", t)
@@ -287,8 +288,7 @@ func (fr *frame) objectRef(st *State, l *loc) string {
 	s := fr.s
 	switch l.kind {
 	case locField:
-		f := s.declareFun("sub:"+l.mapName, []string{"Int"}, "Int")
-		return fmt.Sprintf("(%s %s)", f, l.base)
+		return s.subRef(l.mapName, l.base)
 	case locCell:
 		return l.base
 	case locElem:
@@ -309,8 +309,7 @@ func (fr *frame) copyFields(st *State, structT types.Type, from, to string, dept
 	for i := 0; i < stt.NumFields(); i++ {
 		name, ft := FieldMapName(structT, i)
 		if _, nested := ft.Underlying().(*types.Struct); nested {
-			f := s.declareFun("sub:"+name, []string{"Int"}, "Int")
-			fr.copyFields(st, ft, fmt.Sprintf("(%s %s)", f, from), fmt.Sprintf("(%s %s)", f, to), depth+1)
+			fr.copyFields(st, ft, s.subRef(name, from), s.subRef(name, to), depth+1)
 			continue
 		}
 		so := SortOf(ft)
@@ -352,8 +351,7 @@ func (fr *frame) zeroInit(st *State, t types.Type, ref string, depth int) {
 		for i := 0; i < u.NumFields(); i++ {
 			name, ft := FieldMapName(t, i)
 			if _, nested := ft.Underlying().(*types.Struct); nested {
-				f := s.declareFun("sub:"+name, []string{"Int"}, "Int")
-				fr.zeroInit(st, ft, fmt.Sprintf("(%s %s)", f, ref), depth+1)
+				fr.zeroInit(st, ft, s.subRef(name, ref), depth+1)
 				continue
 			}
 			if _, arr := ft.Underlying().(*types.Array); arr {
@@ -974,11 +972,59 @@ func (fr *frame) lookupLocalBefore(name string, at *ssa.BasicBlock, limit ssa.In
 					}
 				}
 			}
+			if os.Getenv("GOVC_DEBUG") == "2" {
+				fmt.Fprintf(os.Stderr, "  cand %s b%d X=%s (%T) pos=%v\n", name, b.Index, d.X.Name(), d.X, fr.s.P.Fset.Position(d.Pos()))
+			}
 			take(b, d.X, d.IsAddr)
+		}
+	}
+	// go/ssa (x/tools v0.29) records the zero value at the declaration of a variable
+	// initialised by a composite literal; if the best dominating reference is such a
+	// constant, use the value that later references of the identifier agree on,
+	// provided it is defined before this point
+	if c, isConst := bestVal.(*ssa.Const); bestVal == nil || (isConst && c.Value == nil) {
+		var alt ssa.Value
+		ambiguous := false
+		for _, b := range fr.fn.Blocks {
+			for _, in := range b.Instrs {
+				d, ok := in.(*ssa.DebugRef)
+				if !ok || d.IsAddr {
+					continue
+				}
+				id, ok := d.Expr.(*ast.Ident)
+				if !ok || id.Name != name {
+					continue
+				}
+				vi, ok := d.X.(ssa.Instruction)
+				if !ok {
+					continue
+				}
+				if _, isPhi := d.X.(*ssa.Phi); isPhi {
+					continue
+				}
+				db := vi.Block()
+				if db == nil || !(db.Dominates(at)) || db == at {
+					continue
+				}
+				if _, computed := fr.vals[d.X]; !computed {
+					continue
+				}
+				if alt != nil && alt != d.X {
+					ambiguous = true
+				}
+				alt = d.X
+			}
+		}
+		if alt != nil && !ambiguous {
+			bestVal, bestAddr = alt, false
+			bestBlock = alt.(ssa.Instruction).Block()
 		}
 	}
 	if bestVal == nil {
 		return fr.lookupRenamed(name, at, limit, st)
+	}
+	if os.Getenv("GOVC_DEBUG") != "" {
+		fmt.Fprintf(os.Stderr, "lookup %s at b%d -> %s (%T) in b%d = %v\n", name, at.Index, bestVal.Name(), bestVal, bestBlock.Index, fr.vals[bestVal].T)
 	}
 	if bestAddr {
 		l := fr.locOf(bestVal, st)
